@@ -455,6 +455,26 @@ static void build(vf::Plan &plan, const vf::Opts &o)
         plan.stage("b64:0..15-groups x pad{0,1,2} x (valid|one-defect-at-each-position)", 16 * 3 * 6 * 60,
                    [mk](uint64_t i, Ctx &c) { check_input(c, B64, mk(i)); }, [mk](uint64_t i) { return desc(mk(i)); });
     }
+    // ---- valid text followed by / preceded by characters a lenient reader might strip (line terminators, blanks, NUL, '='): the
+    // decoders take exactly the alphabet, so every such text is rejected unless it happens to be valid as a whole
+    {
+        static const char *const SUF[14] = {"\n", "\r\n", "\r", "\n\n", " ", "\t", "\0", "=", "==", " \n", "\n ", "\r\n\r\n", "\x0B", "\x0C"};
+        static const size_t SUFN[14] = {1, 2, 1, 2, 1, 1, 1, 1, 2, 2, 2, 4, 1, 1};
+        plan.stage("valid text of 0..5 groups (each padding shape) with one of 14 white-space / NUL / '=' runs appended or prepended, hex and base64", 6 * 3 * 14 * 2 * 2,
+                   [](uint64_t i, Ctx &c) {
+                       unsigned groups = (unsigned)vf::take(i, 6), pad = (unsigned)vf::take(i, 3), si = (unsigned)vf::take(i, 14), front = (unsigned)vf::take(i, 2), codec = (unsigned)i;
+                       std::string t;
+                       if (codec) {
+                           for (unsigned k = 0; k < groups * 4; ++k) t += ref::b64_char((k * 11 + groups * 5) % 64);
+                           if (groups && pad >= 1) t[t.size() - 1] = '=';
+                           if (groups && pad >= 2) t[t.size() - 2] = '=';
+                       } else
+                           for (unsigned k = 0; k < groups * 2 + pad * 2; ++k) t += "0123456789abcdefABCDEF"[(k * 7 + groups) % 22];
+                       std::string x(SUF[si], SUFN[si]);
+                       check_input(c, codec ? B64 : HEX, front ? x + t : t + x);
+                   },
+                   [](uint64_t i) { return strf("trailing / leading run case %llu", (unsigned long long)i); });
+    }
     // ---- a text of 2^32 characters (decoded sizes beyond 2^31): size queries, capacity checks and, in the thorough tier, the
     // complete decode.  The text's block shares a 16 MiB window of real memory filled with '0', a character of both alphabets.
 #ifndef VF_ASAN
